@@ -384,7 +384,18 @@ func (sc scenario) run(t *testing.T, cfg vs.Config) explore.Exec {
 				for i := 0; i < g.N; i++ {
 					if !g.Unselected[i] {
 						if _, ok := completions[nodeLabel(i)]; !ok {
-							all = false
+							// skipped because a dependency failed counts as resolved
+							anc := map[int]bool{}
+							transDeps(i, anc)
+							skipped := false
+							for a := range anc {
+								if failedNodes[a] {
+									skipped = true
+								}
+							}
+							if !skipped {
+								all = false
+							}
 						}
 					}
 				}
